@@ -1,10 +1,14 @@
 use vstd::prelude::*;
 verus! {
 //@include frag/std.tpl
-//@include frag/error.tpl
-//@include frag/constants.tpl
-//@include frag/exception.tpl
-//@include frag/bits_function.tpl
-//@include frag/types.tpl
+//@include frag/core_modules.tpl
+pub mod common {
+    pub mod bits {
+//@include frag/common_bits.tpl
+    }
+    pub mod function {
+//@include frag/common_function.tpl
+    }
+}
 } // verus!
 fn main() {}
